@@ -72,7 +72,7 @@ impl<C: Suite> Model for M09<C> {
                 a.push(Dev::OtherKey(j));
             }
         }
-        a.extend([Dev::AddG, Dev::Neg, Dev::Dbl, Dev::Identity, Dev::Repr, Dev::AddTorsion(0), Dev::AddTorsion(1), Dev::AddTorsion(2)]);
+        a.extend([Dev::AddG, Dev::Neg, Dev::Dbl, Dev::Identity, Dev::Repr, Dev::AddTorsion(0), Dev::AddTorsion(1), Dev::AddTorsion(2), Dev::AddTorsion(3), Dev::AddTorsion(4)]);
         for s in SCHEMES {
             a.push(Dev::SigOverPk(s));
         }
@@ -112,6 +112,12 @@ impl<C: Suite> Model for M09<C> {
             }
         };
         o.expect(&format!("C09:prove-deterministic:{}", g), pop == pop2, "equal", "differ");
+        if st.dev.is_none() {
+            // a proof moved by the constant time selection helpers is still the proof of the key that made it
+            if let Ok(other) = self.sks[(st.k + 1) % self.sks.len()].proof_of_possession() {
+                expect_ct_move(o, "C09", &format!("ProofOfPossession<{}>", g), &pop, &other);
+            }
+        }
         let mut vpk = pk;
         let mut proof = Some(pop);
         let mut want = true;
@@ -158,7 +164,9 @@ impl<C: Suite> Model for M09<C> {
                     let r = guard(|| match dec {
                         0 => ProofOfPossession::<C>::try_from(bytes.as_slice()).ok(),
                         1 => serde_bare::from_slice::<ProofOfPossession<C>>(&bytes).ok(),
-                        _ => serde_json::from_str::<ProofOfPossession<C>>(&format!("\"{}\"", hex::encode(&bytes))).ok(),
+                        2 => serde_json::from_str::<ProofOfPossession<C>>(&format!("\"{}\"", hex::encode(&bytes))).ok(),
+                        3 => serde_json::from_reader::<_, ProofOfPossession<C>>(format!("\"{}\"", hex::encode(&bytes)).as_bytes()).ok(),
+                        _ => serde_json::from_value::<ProofOfPossession<C>>(serde_json::Value::String(hex::encode(&bytes))).ok(),
                     });
                     proof = r.ok().flatten();
                     if proof.is_none() {
